@@ -450,6 +450,14 @@ def check(pid, tier, seed, replay=None):
     for d in pg["detail"]:
         log("   " + d)
 
+    # 1a. thorough tier: the independent checker re-checks the property file and everything it depends on (started now, collected
+    #     at the end; it runs beside the correspondence)
+    chk = None
+    if tier == "thorough" and pg["ok"] and not replay and os.environ.get("VERIF_COQCHK", "1") != "0":
+        chk_log = os.path.join(CACHE, "coqchk-%s-%d.log" % (pid, os.getpid()))
+        chk = (subprocess.Popen("exec coqchk -o -silent -Q . K K.Properties.%s > %s 2>&1" % (pid, chk_log), shell=True, cwd=COQ),
+               chk_log, time.time())
+
     # 2. builds
     ok, msg = build_runner()
     if not ok:
@@ -520,6 +528,32 @@ def check(pid, tier, seed, replay=None):
     if hasattr(gen, "extra_checks") and exes and not replay:
         gen.extra_checks(tier, seed, exes, oc, gen_info, log)
 
+    # 3a. collect the independent checker
+    chk_res = None
+    if chk:
+        proc, chk_log, ct0 = chk
+        budget = float(os.environ.get("VERIF_COQCHK_TIMEOUT", "10800"))
+        try:
+            crc = proc.wait(timeout=max(1.0, budget - (time.time() - ct0)))
+            out = open(chk_log).read()
+            m = re.search(r"\* Axioms:(.*?)\n\s*\n\* Constants", out, flags=re.S)
+            ax = " ".join(m.group(1).split()) if m else "?"
+            chk_res = {"rc": crc, "axioms": ax, "seconds": round(time.time() - ct0, 1),
+                       "cmd": "cd /verif/coq && coqchk -o -silent -Q . K K.Properties.%s" % pid}
+            if crc != 0 or ax != "<none>":
+                pg["ok"] = False
+                pg["detail"].append("coqchk: rc=%s axioms=%s %s" % (crc, ax, out[-600:] if crc != 0 else ""))
+            log("[%s] coqchk: rc=%s, axioms: %s (%.0fs)" % (pid, crc, ax, time.time() - ct0))
+        except subprocess.TimeoutExpired:
+            proc.kill()
+            chk_res = {"rc": "not finished within %ds (the finite sweeps are re-evaluated by the checker's slower reduction)" % budget,
+                       "axioms": "?", "seconds": round(time.time() - ct0, 1)}
+            log("[%s] coqchk: not finished within %ds - recorded, not counted against the proof" % (pid, budget))
+        try:
+            os.remove(chk_log)
+        except OSError:
+            pass
+
     # 4. decide
     known, fixed = load_known()
     kn = known.get(pid, {})
@@ -568,6 +602,7 @@ def check(pid, tier, seed, replay=None):
             "checker_cmd": "cd /verif/coq && make Properties/%s.vo  (coqc 8.16.1; Print Assumptions under every theorem; source audit for Admitted/Axiom/...)" % pid,
             "trusted_base": TRUSTED_BASE,
             "theorems": pg["theorems"],
+            "independent_checker": chk_res if chk_res else "coqchk runs in the thorough tier only",
             "evaluations": oc.evaluations,
             "distinct_nontrivial": len(oc.distinct),
             "rule": getattr(gen, "RULE", "in-domain cases with distinct (result, flags, memory diff) signature"),
